@@ -123,6 +123,25 @@ func (d *ShapeDesc) BuildShape() s2.Shape {
 type G struct {
 	T     *core.Tape
 	Small bool // keep drawn codec values small (complete fault enumeration needs short encodings)
+	// Anchor: when set, loops and polygons are drawn near this point with sizes comparable to
+	// AnchorRadius, so that objects of one world overlap, nest and cross (relations that are
+	// not trivially false)
+	Anchor       *s2.Point
+	AnchorRadius float64 // planar (gnomonic) radius
+}
+
+// place draws the centre and maximal planar radius of a new loop/shell.
+func (g *G) place(maxDeg float64) (s2.Point, float64) {
+	t := g.T
+	if g.Anchor != nil {
+		c := g.PointNear(*g.Anchor, s1.Angle(math.Atan(g.AnchorRadius)))
+		r := g.AnchorRadius * (0.15 + 1.6*t.Float())
+		if lim := math.Tan(maxDeg * math.Pi / 180); r > lim {
+			r = lim
+		}
+		return c, r
+	}
+	return g.Point(), math.Tan((0.2 + maxDeg*t.Float()) * math.Pi / 180)
 }
 
 func New() *G { return &G{T: &core.T} }
@@ -244,9 +263,8 @@ func (g *G) LoopDesc(maxV int) ShapeDesc {
 		}
 		return ShapeDesc{Kind: KLoop, Special: sp}
 	}
-	c := g.Point()
+	c, rmax := g.place(40)
 	n := g.vertexCount(maxV)
-	rmax := math.Tan((0.2 + 40*t.Float()) * math.Pi / 180)
 	jit := t.Chance(600)
 	pts := g.starLoop(c, n, rmax*0.5, rmax, jit)
 	pts = g.maybeSnap(pts)
@@ -301,7 +319,7 @@ func (g *G) PolygonDesc(maxV int) ShapeDesc {
 		nshell = 13 + int(t.Uint(8))
 		many = true
 	}
-	base := g.Point()
+	base, anchoredR := g.place(24)
 	bx, by := frame(base)
 	var loops [][]s2.Point
 	var depth []int
@@ -318,6 +336,9 @@ func (g *G) PolygonDesc(maxV int) ShapeDesc {
 			c = by
 		}
 		rmax := math.Tan((1 + 24*t.Float()) * math.Pi / 180)
+		if g.Anchor != nil && sIdx == 0 {
+			rmax = anchoredR
+		}
 		if many {
 			// a ring of small shells 25 degrees out from base, 360/nshell degrees apart
 			c = planar(base, math.Tan(25*math.Pi/180), 2*math.Pi*float64(sIdx)/float64(nshell))
@@ -464,11 +485,14 @@ func edgeVectorFromPts(pts []s2.Point) s2.Shape {
 
 // snapMode: how the vertices of a drawn loop relate to cell centres.
 const (
-	SnapNone    = 0 // arbitrary points
-	SnapOne     = 1 // all vertices are centres of cells of one level
-	SnapMixed   = 2 // every vertex is a cell centre, levels vary per vertex
-	SnapPartial = 3 // most vertices at one level, some arbitrary (off-centre list)
-	SnapMostly  = 4 // most at one level, a few at another level
+	SnapNone      = 0 // arbitrary points
+	SnapOne       = 1 // all vertices are centres of cells of one level
+	SnapMixed     = 2 // every vertex is a cell centre, levels vary per vertex
+	SnapPartial   = 3 // most vertices at one level, some arbitrary (off-centre list)
+	SnapMostly    = 4 // most at one level, a few at another level
+	SnapCorner    = 5 // vertices are cell corners (lattice points of (si,ti) that are the centre of no cell)
+	SnapCornerMix = 6 // mostly cell centres of one level, some cell corners
+	NumSnapModes  = 7
 )
 
 func (g *G) capV(n int) int {
@@ -487,10 +511,21 @@ func (g *G) snapPts(pts []s2.Point, mode int) []s2.Point {
 	if t.Chance(700) {
 		lvl = 12 + int(t.Uint(19)) // fine levels keep loops valid
 	}
+	if t.Chance(250) {
+		lvl = 8 * (1 + int(t.Uint(3))) // 8, 16, 24: the first point of a compressed loop is stored in whole bytes
+	}
 	out := make([]s2.Point, len(pts))
 	for i, p := range pts {
 		l := lvl
 		switch mode {
+		case SnapCorner:
+			out[i] = s2.CellFromCellID(s2.CellFromPoint(p).ID().Parent(l)).Vertex(int(t.Uint(4)))
+			continue
+		case SnapCornerMix:
+			if t.Chance(250) {
+				out[i] = s2.CellFromCellID(s2.CellFromPoint(p).ID().Parent(l)).Vertex(int(t.Uint(4)))
+				continue
+			}
 		case SnapMixed:
 			l = 10 + int(t.Uint(21))
 		case SnapPartial:
@@ -556,7 +591,7 @@ func (g *G) CodecLoopDesc() ShapeDesc {
 	n := g.vertexCount(g.capV(150))
 	rmax := math.Tan((0.001 + 35*t.Float()*t.Float()) * math.Pi / 180)
 	pts := g.starLoop(c, n, rmax*0.5, rmax, t.Chance(600))
-	pts = g.snapPts(pts, int(t.Uint(5)))
+	pts = g.snapPts(pts, int(t.Uint(NumSnapModes)))
 	if t.Chance(200) {
 		// reversed orientation: the loop contains the origin side (originInside flag)
 		for a, b := 0, len(pts)-1; a < b; a, b = a+1, b-1 {
@@ -577,7 +612,10 @@ func (g *G) CodecPolygonDesc() ShapeDesc {
 		}
 		return ShapeDesc{Kind: KPolygon, Special: sp}
 	}
-	mode := int(t.Uint(5))
+	mode := int(t.Uint(NumSnapModes))
+	if t.Chance(80) {
+		return g.edgeStartPolygon()
+	}
 	nshell := 1 + int(t.Uint(3))
 	if t.Chance(100) {
 		nshell = 4 + int(t.Uint(10)) // many small shells: exercises the cumulative edge table (>12 loops)
@@ -646,4 +684,76 @@ func (g *G) CodecPolygonDesc() ShapeDesc {
 		}
 	}
 	return d
+}
+
+// cubeEdgePoint returns a point exactly on an edge of the cube (|two coordinates| equal and
+// maximal), where the (s,t) coordinates reach their extreme values.
+func (g *G) cubeEdgePoint() s2.Point {
+	t := g.T
+	z := 2*t.Float() - 1
+	if t.Chance(100) {
+		z = float64(int(t.Uint(3))) - 1 // a cube corner or an edge midpoint
+	}
+	a, b := 1.0, 1.0
+	if t.Chance(500) {
+		a = -1
+	}
+	if t.Chance(500) {
+		b = -1
+	}
+	var v r3.Vector
+	switch t.Uint(3) {
+	case 0:
+		v = r3.Vector{X: a, Y: b, Z: z}
+	case 1:
+		v = r3.Vector{X: a, Y: z, Z: b}
+	default:
+		v = r3.Vector{X: z, Y: a, Z: b}
+	}
+	return s2.Point{Vector: v.Normalize()}
+}
+
+// edgeStartPolygon draws a small polygon whose loops START at a point exactly on a cube edge and
+// continue with cell centres of one level (8, 16, 24 or any), so that the compressed format is
+// chosen and its first, fixed-length point has an extreme coordinate.
+func (g *G) edgeStartPolygon() ShapeDesc {
+	t := g.T
+	lvl := 8 * (1 + int(t.Uint(3)))
+	if t.Chance(300) {
+		lvl = 4 + int(t.Uint(27))
+	}
+	v0 := g.cubeEdgePoint()
+	n := 3 + int(t.Uint(6))
+	size := s1.Angle(math.Max(8*math.Pow(0.5, float64(lvl)), 1e-7) * (1 + 30*t.Float()))
+	if size > 0.3 {
+		size = 0.3
+	}
+	for try := 0; try < 6; try++ {
+		c := g.PointNear(v0, size)
+		if c == v0 {
+			continue
+		}
+		// star loop around c whose first vertex direction points at v0
+		pts := make([]s2.Point, 0, n)
+		pts = append(pts, v0)
+		x, y := frame(c)
+		dv := v0.Vector.Sub(c.Vector)
+		phi0 := math.Atan2(dv.Dot(y.Vector), dv.Dot(x.Vector))
+		rho := math.Tan(float64(c.Distance(v0)))
+		for i := 1; i < n; i++ {
+			q := planar(c, rho*(0.7+0.6*t.Float()), phi0+2*math.Pi*float64(i)/float64(n))
+			pts = append(pts, s2.CellFromPoint(q).ID().Parent(lvl).Point())
+		}
+		if validLoop(pts) {
+			l := s2.LoopFromPoints(clonePts(pts))
+			if !l.IsNormalized() {
+				// keep vertex 0 first, reverse the rest
+				for a, b := 1, len(pts)-1; a < b; a, b = a+1, b-1 {
+					pts[a], pts[b] = pts[b], pts[a]
+				}
+			}
+			return ShapeDesc{Kind: KPolygon, Loops: [][]s2.Point{pts}, Depth: []int{0}}
+		}
+	}
+	return ShapeDesc{Kind: KPolygon, Loops: [][]s2.Point{g.starLoop(g.Point(), 4, 0.05, 0.1, false)}, Depth: []int{0}}
 }
